@@ -156,14 +156,15 @@ PROPS = {
         title='Accepted proofs are bound to each of their elements and to their circuit',
         design_ref='DESIGN.md section 4 / C03',
         bounded=[('plonky2', ['c03_', 'c04_'])],
-        vspecs=['contracts/C03/plonk_verifier.vspec', 'contracts/C05/fri_verifier.vspec', 'contracts/C18/fri_shape.vspec', 'contracts/C12/merkle_verify.vspec',
+        vspecs=['contracts/C03/plonk_verifier.vspec', 'contracts/C02/vanishing_poly.vspec', 'contracts/C05/fri_verifier.vspec', 'contracts/C18/fri_shape.vspec', 'contracts/C12/merkle_verify.vspec',
                 'contracts/C04/transcript.vspec', 'contracts/C04/challenger.vspec'],
         level_text='Unbounded deductive proof (Verus/Z3) of the acceptance skeleton of the real verifier code: verify() returns Ok only if shape validation '
                    'pinned every vector length to the circuit, the vanishing identity held for EVERY challenge index on the proof\'s own openings, '
                    'challenges were derived from the public-input hash, the VERIFIER DATA\'s circuit digest and the common data, and the FRI opening '
                    'proof was verified (every query round, every Merkle path, every fold, final polynomial, PoW, round count) against the caps '
                    '[verifier_data.constants_sigmas_cap, wires_cap, zs_cap, quotient_cap] in that order. A verifier that stops checking one of these '
-                   'fails a named postcondition.',
+                   'fails a named postcondition. The vanishing expression itself (eval_vanishing_poly) is the alpha-combination of the L_0 terms, the partial-product checks, the lookup terms and the '
+                   'gate constraints, each for every challenge index on its own slice of the openings (unit vanishing_poly, shared with C02).',
         level_note='Trusted: Verus+Z3; algebra callees as uninterpreted functions (T10); get_challenges proved against the transcript specification (C04 units, same run); circuit data '
                    'satisfy common_ok. The step from "every element is read by a check or absorbed" to "every change is rejected" is the '
                    'soundness/collision argument (outside the family). Compressed proofs (decompress path, HashMap code) not covered.',
@@ -216,7 +217,7 @@ PROPS = {
         title='No accepted proof exists for an assignment that violates the circuit',
         design_ref='DESIGN.md section 4 / C02',
         bounded=[('plonky2', ['c02_', 'c08_'])],
-        vspecs=['contracts/C02/gate_constraints.vspec', 'contracts/C02/partition_witness.vspec', 'contracts/C07/gate_constraints_circuit.vspec', 'contracts/C07/filtered_circuit.vspec', 'contracts/C02/forest.vspec', 'contracts/C02/partial_products.vspec', 'contracts/C15/poly_len.vspec', 'contracts/C03/plonk_verifier.vspec', 'contracts/C08/lookup_selectors.vspec'],
+        vspecs=['contracts/C02/gate_constraints.vspec', 'contracts/C02/vanishing_poly.vspec', 'contracts/C02/partition_witness.vspec', 'contracts/C07/gate_constraints_circuit.vspec', 'contracts/C07/filtered_circuit.vspec', 'contracts/C02/forest.vspec', 'contracts/C02/partial_products.vspec', 'contracts/C15/poly_len.vspec', 'contracts/C03/plonk_verifier.vspec', 'contracts/C08/lookup_selectors.vspec'],
         level_text='Unbounded deductive proof (Verus/Z3) of three of the mechanisms the property names: (i) evaluate_gate_constraints returns, in every '
                    'slot j, the sum over EVERY gate type of the circuit of that gate\'s j-th filtered constraint, each taken with its own selector column '
                    'and group range (no gate skipped, nothing overwritten), and Gate::eval_filtered multiplies the gate\'s own evaluator (run on the '
@@ -229,7 +230,9 @@ PROPS = {
                    'returns Z(x) times the running chunk products (last entry = Z(gx)) and num_partial_products = ceil(n/max_degree) - 1; trim_to_len (the quotient '
                    'truncation in the prover) fails unless only zero coefficients are cut; (vi) PartitionWitness keeps ONE value per copy class: set_target_returning_rep writes the slot of the class representative, '
                    'refuses a second, different value for the class and changes nothing else (frame over all other classes and the partition), try_get_target reads that slot, so every target of a class reads the same value; '
-                   '(vii) the in-circuit combiner evaluate_gate_constraints_circuit mirrors (i) (shared with C07). '
+                   '(vii) the in-circuit combiner evaluate_gate_constraints_circuit mirrors (i) (shared with C07); (viii) eval_vanishing_poly, the expression the verifier compares with Z_H(zeta) t(zeta), is, for EVERY challenge index i, the alpha-combination of L_0(x)(Z_i(x) - 1), '
+                   'the partial-product checks over numerators w_j + beta_i k_j x + gamma_i and denominators w_j + beta_i sigma_j(x) + gamma_i with the i-th slice of partial products and Z_i(x), Z_i(gx), the lookup terms on the i-th slices, '
+                   'and the gate constraints of (i), in this order, with no group dropped (check_partial_products, the lookup terms, L_0 and the alpha reduction themselves are uninterpreted). '
                    'The soundness argument over these mechanisms, the permutation argument and the adversarial-prover half are covered by a bounded '
                    'stand-in only.',
         level_note='Trusted: Verus+Z3; Gate::eval_unfiltered and compute_filter as uninterpreted functions (T10); dyn-Gate dispatch to the default '
@@ -239,7 +242,7 @@ PROPS = {
                    'prover strategies are exercised through the guarded hooks (cargo feature verif_hooks, MANIFEST.hooks): all-zero permutation polynomials, a quotient '
                    'perturbed for one challenge, lenient quotient truncation, each on copy-constraint-only violations; also a 37-routed-wire configuration and conflicting assignments.',
         remainder=['PLONK soundness (Schwartz-Zippel) over the checked identities', 'permutation argument: wire_partition / get_sigma_map / get_sigma_polys (HashMap code; bounded harness only)',
-                   'eval_vanishing_poly: L_0 term, check_partial_products (tuple_windows / zip_eq; bounded harness only)', 
+                   'check_partial_products, check_lookup_constraints, eval_l_0, reduce_with_powers_multi (uninterpreted in eval_vanishing_poly; bounded harness only)', 'eval_vanishing_poly_base_batch (prover side) and eval_vanishing_poly_circuit (recursive verifier): bounded harness only', 
                    'adversarial prover strategies beyond the three hooked ones (all-zero Z, per-challenge quotient alteration, lenient truncation): not exercised'],
     ),
     'C08': dict(
